@@ -1,0 +1,56 @@
+//go:build verif
+
+// Read-only accessors used by the verification harness in /verif. They are only
+// compiled with the "verif" build tag and do not change any behaviour.
+
+package sqlair
+
+import (
+	"github.com/canonical/sqlair/internal/expr"
+)
+
+// VerifParse parses the query and returns the nodes of the parsed query.
+func VerifParse(query string) ([]expr.VerifSegment, error) {
+	pe, err := expr.NewParser().Parse(query)
+	if err != nil {
+		return nil, err
+	}
+	return pe.VerifSegments(), nil
+}
+
+// VerifCacheStats is a snapshot of the statement cache.
+type VerifCacheStats struct {
+	// Statements and DBs are the number of Statement and DB ids with an entry.
+	Statements int
+	DBs        int
+	// Pairs are the (statement id, db id) pairs that have a cached driver
+	// statement, SQL is the SQL each was prepared with (same order).
+	Pairs [][2]uint64
+	SQL   []string
+	// Index are the (db id, statement id) pairs of the reverse index.
+	Index [][2]uint64
+}
+
+// VerifGetCacheStats returns a snapshot of the statement cache.
+func VerifGetCacheStats() VerifCacheStats {
+	sc := stmtCache
+	sc.mutex.RLock()
+	defer sc.mutex.RUnlock()
+	st := VerifCacheStats{Statements: len(sc.stmtDBCache), DBs: len(sc.dbStmtCache)}
+	for sid, m := range sc.stmtDBCache {
+		for did, ds := range m {
+			st.Pairs = append(st.Pairs, [2]uint64{sid, did})
+			st.SQL = append(st.SQL, ds.sql)
+		}
+	}
+	for did, m := range sc.dbStmtCache {
+		for sid := range m {
+			st.Index = append(st.Index, [2]uint64{did, sid})
+		}
+	}
+	return st
+}
+
+// VerifStatementID and VerifDBID return the cache ids of a Statement and a DB.
+func VerifStatementID(s *Statement) uint64 { return s.cacheID }
+func VerifDBID(db *DB) uint64              { return db.cacheID }
